@@ -109,7 +109,7 @@ func checkC12A(c any) *ev.Verdict {
 	inflight(ec)
 	text := gen.PrintCanonical(ec.Script)
 	for _, mode := range []string{doubles.Superset, doubles.Exact} {
-		r := hx.RunText(text, ec.Vars, doubles.New(mode, hx.Content(ec)), ec.Flags)
+		r := hx.RunTextEC(ec, text, doubles.New(mode, hx.Content(ec)))
 		if mode == doubles.Superset {
 			outcomeLabel(r, v)
 		}
@@ -128,7 +128,7 @@ func checkC12A(c any) *ev.Verdict {
 		if strings.HasPrefix(r.ErrClass, "Other:") && !strings.HasPrefix(strings.TrimPrefix(r.ErrType, "*"), "interpreter.") {
 			return v.Failf("untyped-error", "execution returned an error that is not one of the interpreter's typed errors: %s (%s)", r.ErrType, r.ErrMsg)
 		}
-		ri := hx.RunInternal(text, ec.Vars, doubles.New(mode, hx.Content(ec)), ec.Flags)
+		ri := hx.RunInternalEC(ec, text, doubles.New(mode, hx.Content(ec)))
 		if ri.Panic != "" {
 			return v.Failf(crashClass(ri.Panic), "interpreter.RunProgram panicked: %s", firstLines(ri.Panic, 14))
 		}
